@@ -146,7 +146,7 @@ class Norm:
     def written_before(self, n, field):
         """some write of `field` can execute before the read at node n (so the read sees a state the function has changed)"""
         f = self.f
-        key = (f.id, n['i'], field)
+        key = (id(f), f.id, n['i'], field)
         if key in Norm._POST:
             return Norm._POST[key]
         res = False
@@ -185,7 +185,7 @@ class Norm:
         stand in for the variable there (fields and globals; a call to a non-const member function of the object counts as
         writing all of its fields)"""
         f = self.f
-        key = (f.id, d['i'], use['i'])
+        key = (id(f), f.id, d['i'], use['i'])
         if key in Norm._STABLE:
             return Norm._STABLE[key]
         fields = set()
